@@ -1262,7 +1262,7 @@ impl<'a> RefSim<'a> {
                         self.cancel_key(k, None);
                     }
                 }
-                Cmd::ReadTime | Cmd::Connect { .. } => {}
+                Cmd::ReadTime | Cmd::Connect { .. } | Cmd::ProcessQuerySrc { .. } => {}
                 _ if self.terminated => {
                     let ok = match (&o.err, cmd) {
                         (Some(ErrKind::Terminated), _) => true,
